@@ -1,4 +1,4 @@
 #!/bin/bash
-# tools/seed3_batch.sh C06 C08 ...   evaluates m5 and m6 of each id (wave 3), 3 ids in parallel; appends to seeded/RESULTS3.jsonl
+# tools/seed3_batch.sh C06 C08 ...   evaluates m5 and m6 of each id (wave 3), 3 ids in parallel; appends to seeded/${SEED_OUT:-RESULTS3.jsonl}
 cd /verif
-for id in "$@"; do echo $id; done | xargs -P 3 -I{} bash -c 'for m in m5 m6; do SEED_WT=/tmp/seed3 SEED_WAVE=3 python3 tools/seed2_eval.py {} $m 2>/dev/null | grep "^{" >> /verif/seeded/RESULTS3.jsonl; done'
+for id in "$@"; do echo $id; done | xargs -P 3 -I{} bash -c 'for m in ${SEED_MS:-m5 m6}; do SEED_WT=${SEED_WT:-/tmp/seed3} SEED_WAVE=${SEED_WAVE:-3} python3 tools/seed2_eval.py {} $m 2>/dev/null | grep "^{" >> /verif/seeded/${SEED_OUT:-RESULTS3.jsonl}; done'
